@@ -78,7 +78,14 @@ def run(ctx):
         kc, Pc = gen_bound(rng, lv)
         if Pc < 0:
             Pc = float(P[rng.randrange(n)])    # exactly a layer pressure
-        c = SimpleCloudsContribution(clouds_pressure=Pc)
+        if rng.random() < 0.5:
+            # prepared once with another cloud top, then re-configured through the fitting parameter (as a retrieval does)
+            c = SimpleCloudsContribution(clouds_pressure=float(lv[rng.randrange(len(lv))]) * rng.uniform(0.5, 2))
+            c.prepare(st, wn)
+            c.fitting_parameters()['clouds_pressure'][3](Pc)
+            ctx.count('cloud:re-configured')
+        else:
+            c = SimpleCloudsContribution(clouds_pressure=Pc)
         c.prepare(st, wn)
         flags = np.isinf(np.array(c.sigma_xsec)).all(axis=1)
         some = np.isinf(np.array(c.sigma_xsec)).any(axis=1)
@@ -95,10 +102,20 @@ def run(ctx):
         kt, top = gen_bound(rng, lv)
         kb, bot = gen_bound(rng, lv)
         mix = 10 ** rng.uniform(-30, 0)
-        f = FlatMieContribution(flat_mix_ratio=mix, flat_topP=top, flat_bottomP=bot)
         rp = dict(kind='flat', levels=lv, top=top, bottom=bot, mix=mix)
         try:
             with np.errstate(all='ignore'):
+                if rng.random() < 0.5:
+                    f = FlatMieContribution(flat_mix_ratio=10 ** rng.uniform(-30, 0), flat_topP=float(lv[-1]) * 2,
+                                            flat_bottomP=float(lv[0]) / 2)
+                    f.prepare(st, wn)
+                    fp_ = f.fitting_parameters()
+                    fp_['flat_mix_ratio'][3](mix)
+                    fp_['flat_topP'][3](top)
+                    fp_['flat_bottomP'][3](bot)
+                    ctx.count('flat:re-configured')
+                else:
+                    f = FlatMieContribution(flat_mix_ratio=mix, flat_topP=top, flat_bottomP=bot)
                 f.prepare(st, wn)
             sig = np.array(f.sigma_xsec)
         except Exception as e:
